@@ -5,11 +5,6 @@ import Spydr.Eblif.LemmasElab
 
 namespace Spydr.Eblif
 
-/-- `current_instance_info` of a `.subckt`: a dict keyed by the formal text (a repeated formal
-    keeps its first position and takes the last actual) -/
-def infoMapOf (conns : List (String × String)) : List (String × String) :=
-  conns.foldl (fun l fa => dictSet l fa.1 fa.2) []
-
 theorem dictSet_fresh (l : List (String × String)) (k v : String) (h : ∀ p ∈ l, p.1 ≠ k) :
     dictSet l k v = l ++ [(k, v)] := by
   unfold dictSet
